@@ -618,8 +618,12 @@ pub struct FsTzdbProvider {
 impl FsTzdbProvider {
     pub fn get(&self, identifier: &str) -> TemporalResult<Tzif> {
         if let Some(tzif) = self.cache.borrow().get(identifier) {
+            #[cfg(temporal_verif)]
+            crate::verif::tz::emit(identifier, true);
             return Ok(tzif.clone());
         }
+        #[cfg(temporal_verif)]
+        crate::verif::tz::emit(identifier, false);
         #[cfg(target_family = "unix")]
         let (identifier, tzif) = { (identifier, Tzif::read_tzif(identifier)?) };
 
